@@ -156,10 +156,10 @@ fn finish_check(prop: &str, tier: &str, batch_seed: u64, t0: Instant, main: Batc
             let index = doc.u64_of("index");
             let mut d2 = doc.clone();
             let mut extra = doc.get("extra").cloned().unwrap_or(J::obj());
-            extra.put("worker_history", J::obj().set("start", J::u(index % workers)).set("stride", J::u(workers)).set("index", J::u(index)).set("verif_seed", J::u(batch_seed)));
+            extra.put("worker_history", J::obj().set("start", J::u(supervisor::chunk_start(index, workers))).set("stride", J::u(workers)).set("index", J::u(index)).set("verif_seed", J::u(batch_seed)));
             d2.put("extra", extra);
             d2.put("history_dependent", J::Bool(true));
-            d2.put("detail", J::s(&format!("{} [reproduces only after the {} earlier runs of the same worker process: the outcome depends on what was compiled before]", doc.str_of("detail"), index / workers)));
+            d2.put("detail", J::s(&format!("{} [reproduces only after the earlier runs of the same worker process (from run {} on, every {}th): the outcome depends on what was compiled before]", doc.str_of("detail"), supervisor::chunk_start(index, workers), workers)));
             let _ = std::fs::write(&path, d2.to_pretty());
             let (ok2, text2) = supervisor::replay_in_fresh_process(&path, id, 600);
             if ok2 {
@@ -551,8 +551,8 @@ fn replay_main(path: &str) -> i32 {
             // the same run after two different worker histories (16 and 5 workers)
             let (seed, x) = (a.u64_of("verif_seed"), a.u64_of("index"));
             // each history runs in its own process: state may be process-wide, not only per thread
-            let a16 = audit_pair_in_process(&prop2, seed, x % 16, 16, x);
-            let a5 = audit_pair_in_process(&prop2, seed, x % 5, 5, x);
+            let a16 = audit_pair_in_process(&prop2, seed, supervisor::chunk_start(x, 16), 16, x);
+            let a5 = audit_pair_in_process(&prop2, seed, supervisor::chunk_start(x, 5), 5, x);
             exec::clean_root(&scratch);
             let _ = std::fs::remove_dir(&scratch);
             return if a16 != a5 {
